@@ -72,5 +72,36 @@ ENGINES = [
  {"name": "codec-lab", "path": "harness/src/codec", "serves_properties": ["C01", "C07", "C08", "C13", "C14"],
   "kind_free_text": "generators + independent reference encoder/decoder/skipper for the value wire format, byte mutators, counting allocator, panic capture; drives the real aldrin-core codec"},
 ]
+
+BUS_NOTE = "Trusts the executable bus model (harness/src/bus/model.rs, written from the property statements) and the harness transport (in-memory message pipe, only the public AsyncTransport trait); cookies and broker-chosen serials are compared up to a bijection learned on first sight; payloads by value through the reference decoder when bytes differ."
+CLAIMED.update({
+ "C02": ("bus-rig", "exploration",
+   "Runtime monitoring of the real broker and real Connection tasks on a deterministic executor: generated call histories (call v1/v2 form, owner replies of every result kind, replies by strangers, stale and duplicate replies, aborts incl. unknown serials, serial reuse, destroy service/object, the four kinds of disconnect, bursts of queued inputs so that senders are already gone when handled) are dequeued in an order the harness constructs and every delivery on every connection is compared with an executable sequential model of the bus. Held on the histories observed.",
+   BUS_NOTE, "runtime history-vs-executable-model oracle on a scripted deterministic executor, panic monitor", "DESIGN.md §4 C02"),
+ "C03": ("bus-rig", "exploration",
+   "Same engine, registry profile: create/destroy of objects and services over a pool of 3x3 UUIDs by 3-6 connections, both create-service forms, version/info queries, subscribe and call probes, foreign/stale/never-issued cookies, disconnects incl. dropped connection tasks with requests still queued. Result codes, cookie freshness, ownership and cascades are decided by the model. Held on the histories observed.",
+   BUS_NOTE, "runtime history-vs-executable-model oracle, panic monitor", "DESIGN.md §4 C03"),
+ "C04": ("bus-rig", "exploration",
+   "Same engine, events profile: subscribe/unsubscribe per event and all-events, service subscriptions, emits by owner and strangers, destroys and disconnects over 3 event ids; exact delivery sets and 0<->1 notifications at the owner (also when caused by a disconnect), ServiceDestroyed once per subscribed connection. Held on the histories observed.",
+   BUS_NOTE + " For a connection whose only subscription is all-events the ServiceDestroyed notification is accepted present or absent (DESIGN C04 interpretation).", "runtime history-vs-executable-model oracle, panic monitor", "DESIGN.md §4 C04"),
+ "C05": ("bus-rig", "exploration",
+   "Same engine, channel profile: create/claim/close/send-item/add-capacity/disconnect on both ends, capacities 0,1,3,4,5,16,2^32-2,2^32-1, senders within and beyond their announced credit, overflowing grants; model = end state machine plus the two credits (conservation: forwarded <= granted, announced <= granted; a sender within its announced credit is never closed, one beyond loses only its end; a sender with no credit while the receiver has granted more is reported as starved). Held on the histories observed.",
+   BUS_NOTE + " The timing of credit announcements to the sender is the broker's policy and is accepted whenever it stays within the granted capacity.", "runtime history-vs-executable-model oracle with conservation invariants, panic monitor", "DESIGN.md §4 C05"),
+ "C09": ("bus-rig", "fault_enumeration",
+   "Fault enumeration over generated mixed histories: each history is re-run once per cut point x victim connection x way of ending (client shutdown, transport closed, forced through the broker handle, connection task dropped) x queue state (empty, victim's requests queued ahead of the termination, termination queued ahead of them); after every dequeued input deliveries, the snapshot hook (map sizes + cross-reference walk inside the broker task) and the published statistics gauges are compared with the model; afterwards all connections end, the snapshot must be all-zero and shutdown_idle must make Broker::run return (its exit debug_assert!s are live); every fourth history ends in BrokerHandle::shutdown instead; fixed probes cover a connection task that ends by its own error. Held on the fault runs observed.",
+   BUS_NOTE + " A dropped connection task is only noticed at the broker's next delivery attempt (documented upstream behaviour); the harness provokes one and demands cleanup from that point.", "runtime fault injection at every cut point + invariant at a hook (snapshot) + history-vs-model oracle", "DESIGN.md §4 C09"),
+ "C10": ("bus-rig", "exploration",
+   "Same engine, listener profile: several listeners per connection, add/remove/clear over all six filter shapes on the UUID pool, start with the three scopes/stop/destroy, object and service churn, disconnects; tagged current events = plain filter predicate over live entities followed by one marker, untagged new events once per connection. Held on the histories observed.",
+   BUS_NOTE, "runtime history-vs-executable-model oracle, panic monitor", "DESIGN.md §4 C10"),
+ "C11": ("bus-rig", "exploration",
+   "Hostile histories: arbitrary messages of all 63 kinds (upstream Arbitrary derive) with ids redirected to live, stale and never-issued pools, guessed serials, payloads well-formed or garbage, wrong-direction and too-new kinds, duplicate serials, replies by strangers, interleaved with connects and all kinds of disconnects in bursts of up to 8 queued inputs; monitors: panic around every poll, quiescence within a round budget, and every delivery to every connection (abusers, bystanders, probes) against the bus model. Four fixed probes exercise payloads a peer would have to re-encode (known finding). Held on the histories observed.",
+   BUS_NOTE + " Garbage payloads in the bulk workload are only sent where no peer has to re-encode them.", "runtime panic/hang monitors + history-vs-executable-model oracle under hostile workload", "DESIGN.md §4 C11"),
+ "C12": ("bus-rig", "exploration",
+   "Exhaustive small grids (handshake: both connect forms x majors x 30 minors; gating: 10 requested versions x 11 gated kinds on fresh connections) plus sampled interop: every ordered pair of the 49 negotiated-version pairs carries generated payloads (depth <= 8) through call arguments, replies, events, items and aborts, compared by value with the model, under a passive monitor that no delivered kind is newer than the receiver's version and no 1.20 container encoding reaches a pre-1.20 receiver; mixed-version histories run under the same monitor. Held on what was observed.",
+   BUS_NOTE, "runtime grid enumeration + passive version/epoch monitor + history-vs-model oracle", "DESIGN.md §4 C12"),
+})
+ENGINES.append({"name": "bus-rig", "path": "harness/src/bus", "serves_properties": ["C02", "C03", "C04", "C05", "C09", "C10", "C11", "C12"],
+  "kind_free_text": "deterministic single-thread executor (scripted/random), in-memory AsyncTransport with fault injection, executable sequential model of the bus with nondeterministic transitions, protocol-level peers driving the real Broker/Connection tasks, workload generator, snapshot-hook and statistics cross-checks"})
+
 if __name__ == "__main__":
     main()
